@@ -46,22 +46,29 @@ def load_program(extra=(), follow=(), key='main'):
     tag = hashlib.sha256(('|'.join(sorted(extra)) + '#' + '|'.join(sorted(follow)) + '#' + ROOTS + '#' + '|'.join(FOLLOW) + '#' + open(os.path.join(VERIF, 'ssaexport', 'main.go')).read()).encode()).hexdigest()[:8]
     out = os.path.join(CACHE, 'ssa-%s-%s-%s.json' % (key, h, tag))
     if not os.path.exists(out):
-        exe = ensure_exporter()
-        for f in os.listdir(CACHE):
-            if f.startswith('ssa-%s-' % key) and f.endswith('-%s.json' % tag):
-                os.unlink(os.path.join(CACHE, f))
-        cmd = [exe, '-dir', REPO, '-roots', ROOTS, '-out', out + '.tmp']
-        for f in list(FOLLOW) + list(follow):
-            cmd += ['-follow', f]
-        if extra:
-            cmd += ['-extra', ','.join(extra)]
-        t0 = time.time()
-        r = subprocess.run(cmd, env=GOENV, capture_output=True, text=True)
-        if r.returncode != 0:
-            sys.stderr.write(r.stdout + r.stderr)
-            raise SystemExit('ssaexport failed (the tree does not build?)')
-        os.rename(out + '.tmp', out)
-        sys.stderr.write('[ssaexport %.1fs] %s' % (time.time() - t0, r.stderr))
+        import fcntl
+        with open(os.path.join(CACHE, 'lock'), 'w') as lk:   # checks may be started concurrently
+            fcntl.flock(lk, fcntl.LOCK_EX)
+            if not os.path.exists(out):
+                exe = ensure_exporter()
+                for f in os.listdir(CACHE):
+                    # stale exports (other tree states); recent ones may be in use by a concurrently running check
+                    if f.startswith('ssa-%s-' % key) and f.endswith('.json') and time.time() - os.path.getmtime(os.path.join(CACHE, f)) > 7200:
+                        os.unlink(os.path.join(CACHE, f))
+                tmp = '%s.%d.tmp' % (out, os.getpid())
+                cmd = [exe, '-dir', REPO, '-roots', ROOTS, '-out', tmp]
+                for f in list(FOLLOW) + list(follow):
+                    cmd += ['-follow', f]
+                if extra:
+                    cmd += ['-extra', ','.join(extra)]
+                t0 = time.time()
+                r = subprocess.run(cmd, env=GOENV, capture_output=True, text=True)
+                if r.returncode != 0:
+                    sys.stderr.write(r.stdout + r.stderr)
+                    raise SystemExit('ssaexport failed (the tree does not build?)')
+                os.rename(tmp, out)
+                sys.stderr.write('[ssaexport %.1fs] %s' % (time.time() - t0, r.stderr))
+    os.utime(out)
     p = Program(out)
     p.repo_hash = h
     return p
@@ -117,6 +124,9 @@ class Check:
         """run one obligation.  With process forking enabled the whole obligation runs in a child forked from the (small, clean)
         root process, so that the heap grown by one obligation does not tax the forks of the next one."""
         parallel = kw.get('parallel', True)
+        only = os.environ.get('VERIF_ONLY')   # development aid: run only the obligations whose name contains this text
+        if only and only not in name:
+            return None
         if not (self.jobs > 1 and parallel and self.isolate):
             return self.run_inner(name, prog, harness, **kw)
         import pickle, tempfile
@@ -198,6 +208,7 @@ class Check:
         import multiprocessing as _mp
         ob.replay_budget = _mp.Value('i', int(os.environ.get('VERIF_REPLAY_BUDGET', '6')))
         ob.xp = xp
+        xp.profile_forks = bool(os.environ.get('VERIF_PROFILE'))
         if pre_run:
             pre_run(ob)
 
@@ -216,7 +227,7 @@ class Check:
             else:
                 xp.run(lambda ex: harness(ex, ob), on_path)
         except Exception as e:  # machinery failure: never an alarm
-            ob.inconclusive.append('machinery error: %s' % (traceback.format_exc(limit=6),))
+            ob.inconclusive.append('machinery error: %s' % (traceback.format_exc(limit=-10),))
         ob.wall = time.time() - t0
         ob.stats = dict(xp.stats)
         if xp.stats.get('truncated'):
@@ -235,6 +246,11 @@ class Check:
             ob.inconclusive.append('vacuous: no path reached an assertion (reachability twin unsat)')
         for m in ob.inconclusive[:5]:
             print('INCONCLUSIVE property=%s obligation=%s %s' % (self.prop, name, m.splitlines()[-1][:300]))
+            if os.environ.get('VERIF_DEBUG'):
+                print(m)
+        if xp.profile_forks:
+            for k, v in sorted(xp.fork_sites.items(), key=lambda kv: -kv[1])[:25]:
+                print('   fork-site %6d %s' % (v, k))
         status = 'ok' if not ob.violations and not ob.inconclusive else ('VIOLATED' if ob.violations else 'inconclusive')
         print('[%s] %-46s paths=%d checks=%d reach=%d %.1fs %s' % (self.prop, name, ob.paths, ob.discharged, ob.reach, ob.wall, status))
         sys.stdout.flush()
@@ -268,7 +284,7 @@ class Check:
             xp.run(lambda ex: harness(ex, ob), on_path)
         except BaseException:
             if fc.is_child:
-                ob.inconclusive.append('machinery error: %s' % traceback.format_exc(limit=6))
+                ob.inconclusive.append('machinery error: %s' % traceback.format_exc(limit=-10))
             else:
                 raise
         finally:
